@@ -153,7 +153,7 @@ func checkOwnBounds(label string, hi Histogram, spec Buckets, orig []uint64, isD
 
 // VerifC20Cache: histograms created one after the other under one root with bucket
 // sets the solver may choose to collide in the bucket cache.
-func VerifC20Cache() { c20Cache(2) }
+func VerifC20Cache()  { c20Cache(2) }
 func VerifC20Cache3() { c20Cache(3) }
 
 func c20Cache(k int) {
@@ -178,4 +178,11 @@ func c20Cache(k int) {
 		checkOwnBounds("c20.cache", hs[i], specs[i], origs[i], durs[i])
 	}
 	verifrt.Reach("c20.cache.end")
+}
+
+// VerifC20CacheConcurrent: the cache must hand every histogram its own bounds also when two
+// different sets with the same identity are first created concurrently (see c09.go).
+func VerifC20CacheConcurrent() {
+	c09CollidePrefix = "c20.cache.concurrent"
+	VerifC09BucketCacheCollide()
 }
